@@ -3,7 +3,7 @@
 // for one key of every slot at every proxy.
 //
 // Case  : "<enc> <lim> <pin> | H <ordered> ; op ; op ..."      enc = plain|comp   lim = migration limit of the views
-//         pin = pc | pb | psh | psd | scan | fsh | fsd | sc   (see `apply_pin`)
+//         pin = pc | pb | psh | psd | scan | fsh | fsd | sc   (see `set_gates`; xsplit | xpp = replay-only pins, see expected_states)
 // Output: "R <resolved history> ## V <hash of the cluster view> ## PH <phases> ## OBS <per proxy runs> ## MON <monitor>"
 use crate::net::*;
 use crate::store::*;
@@ -115,6 +115,9 @@ fn expected_states(pin: &str) -> (&'static str, &'static str) {
         "fsh" => ("FINAL_SWITCH", "PRE_SWITCH"),
         "fsd" => ("FINAL_SWITCH", "SWITCH_COMMITTED"),
         "sc" => ("SWITCH_COMMITTED", "SWITCH_COMMITTED"),
+        // replay-only pins for the pairs OUTSIDE the consistent list; they need UM_ROUTE_MAX_BLOCKING_MS=300 UM_ROUTE_SETTLE_MS=1200
+        "xsplit" => ("PRE_SWITCH", "PRE_SWITCH"),
+        "xpp" => ("FINAL_SWITCH", "PRE_CHECK"),
         other => panic!("unknown pin {}", other),
     }
 }
@@ -128,6 +131,8 @@ fn set_gates(net: &Net, pin: &str) {
         "fsh" => (GATE_PASS, GATE_PASS, false, GATE_HOLD),
         "fsd" => (GATE_PASS, GATE_PASS, false, GATE_DROP),
         "sc" => (GATE_PASS, GATE_PASS, false, GATE_PASS),
+        "xsplit" => (GATE_PASS, GATE_DROP, true, GATE_HOLD),
+        "xpp" => (GATE_PASS, GATE_HOLD, false, GATE_HOLD),
         other => panic!("unknown pin {}", other),
     };
     net.gate_precheck.store(pc, Ordering::SeqCst);
